@@ -1141,7 +1141,7 @@ func (e *Env) indexValue(base Value, iv Value, at ast.Node) Value {
 		}
 		res := b.Elems[len(b.Elems)-1]
 		for k := len(b.Elems) - 2; k >= 0; k-- {
-			res = mergeVal(Eq(i, IntC(int64(k))), b.Elems[k], res)
+			res = e.mergeLoose(Eq(i, IntC(int64(k))), b.Elems[k], res)
 		}
 		return res
 	}
@@ -1440,7 +1440,7 @@ func (e *Env) composite(n *ast.CompositeLit) Value {
 		e.st.mem[a] = ArrayV{T: arr, N: -1, Elem: u.Elem()}
 		return SliceV{Alloc: a, Off: IntC(0), Len: IntC(idx), Cap: IntC(idx), Elem: u.Elem(), Nil: FalseT, Typ: t}
 	case *types.Array:
-		if _, ok := u.Elem().Underlying().(*types.Basic); !ok {
+		if _, ok := u.Elem().Underlying().(*types.Basic); !ok || e.R().sortOf(u.Elem()) == nil {
 			return e.x.compositeArrayOf(e, n, u, t)
 		}
 		arr := ConstArr(e.zeroElem(u.Elem()))
@@ -1579,4 +1579,22 @@ func (e *Env) knownNonNeg(t *Term, depth int) bool {
 		}
 	}
 	return false
+}
+
+// mergeLoose: like mergeVal, but immutable strings from different allocations are merged into a
+// fresh allocation whose contents are chosen by the guard.
+func (e *Env) mergeLoose(g *Term, a, b Value) Value {
+	sa, ok1 := a.(SliceV)
+	sb, ok2 := b.(SliceV)
+	if ok1 && ok2 && sa.IsString && sb.IsString && sa.Alloc != sb.Alloc {
+		aa := e.x.memArr(e.st, sa.Alloc, sa.path)
+		ba := e.x.memArr(e.st, sb.Alloc, sb.path)
+		if termEq(sa.Off, sb.Off) {
+			al := e.x.alloc()
+			e.st.mem[al] = ArrayV{T: Ite(g, aa.T, ba.T), N: -1, Elem: sa.Elem}
+			ln := Ite(g, sa.Len, sb.Len)
+			return SliceV{Alloc: al, Off: sa.Off, Len: ln, Cap: ln, Elem: sa.Elem, IsString: true, Nil: FalseT, Typ: sa.Typ}
+		}
+	}
+	return mergeVal(g, a, b)
 }
